@@ -41,6 +41,26 @@ def seqItems : Val → Option (List Val)
   induction vs with
   | nil => rfl
   | cons v vs ih => simp [ofList, toList, ih]
+
+/-- Python `==` on the value universe.  `bool` is a subclass of `int`, so `True == 1` and
+`False == 0`, and sequence equality compares element-wise with `==`, so this holds recursively
+inside tuples and lists (`(1, [True]) == (True, [1])`).  A tuple never equals a list, a `str`
+only equals an equal `str`, `None` only `None`, the emit sentinel (a bare `object()`) only
+itself.  Coarser than structural equality (`pyEq_of_eq`), and exactly what
+`update_value`'s `old != new` test observes. -/
+def pyEq : Val → Val → Bool
+  | .none, .none => true
+  | .bool a, .bool b => a == b
+  | .bool a, .int j => (if a then (1 : Int) else 0) == j
+  | .int i, .bool b => i == (if b then (1 : Int) else 0)
+  | .int i, .int j => i == j
+  | .str s, .str t => s == t
+  | .nil, .nil => true
+  | .cons h t, .cons h' t' => pyEq h h' && pyEq t t'
+  | .tup a, .tup b => pyEq a b
+  | .lst a, .lst b => pyEq a b
+  | .sentinel, .sentinel => true
+  | _, _ => false
 end Val
 
 /-- insertion-ordered association list = Python dict -/
